@@ -7,7 +7,7 @@ LEAN_MODULES = ["MesaModel.Props.C11", "MesaModel.Props.C18Layers"]
 _T = [
     "C11_reach_iff_history", "C11_two_views_one_value", "C11_cell_write_read_through_layer",
     "C11_layer_write_read_through_cell", "C11_value_changes_only_by_writes", "C11_read_after_write_persists",
-    "C11_set_cells_pointwise", "C11_modify_cells_pointwise",
+    "C11_set_cells_pointwise", "C11_modify_cells_pointwise", "C11_attached_layers_have_entries",
     "C11_set_in_place_modify_repoints", "C11_modify_cell_pointwise", "C11_write_through_live_reference",
     "C11_create_default", "C11_detach_keeps_values",
     "C11_attach_exposes_layer", "C11_empty_view_is_emptiness", "C11_empties_readout_agrees",
@@ -75,7 +75,7 @@ ASSUMPTIONS = [
 ]
 RULE = ("random scenarios over the three grid families (new cell spaces: Moore/VonNeumann/Hex, 1-3 dimensions, sizes 1-4, "
         "capacity None/1/2, torus or not; legacy SingleGrid/MultiGrid up to 4x4): 1-3 initial layers of dtype bool/int/float, "
-        "then 8-35 ops from {create / free-standing layer (well- or mis-shaped) / attach / detach, single-cell writes and "
+        "then 8-35 ops from {create / free-standing layer (well- or mis-shaped, one in ten with a zero dimension and then a burst of bulk ops / reads on it: np.vectorize refuses conditions and Python functions there) / attach / detach, single-cell writes and "
         "reads through the layer and through the cell attribute, set_cells and modify_cells with and without condition, "
         "ufunc and Python-function operations, ~30% of all written values and modify operands being Python scalars of an "
         "arbitrary type (bool / int / float incl. non-integral floats: casts, refused casts, dtype promotion), dtype "
